@@ -1,15 +1,49 @@
-From Coq Require Import List String.
+(** C03 -- Edit histories: answers depend only on the model's current content.
+    ONLY statements.  [invalidates] / [unknown_mutators] are REGENERATED from src/mxlpy/model.py on
+    every run; C03_facts_pinned is the obligation that breaks when a mutator loses its
+    @_invalidate_cache decorator, the decorator stops clearing first, or a new container-writing
+    public method appears that the state machine does not know. *)
+From Coq Require Import ZArith List Bool String.
+From MxlBase Require Import ListX.
+From Core Require Import Sort GenSortFacts FnLib Model Cache Query.
+From Edit Require Import GenEditFacts ModelSM SMProofs SMPin.
 Import ListNotations.
-From Edit Require Import GenEditFacts.
-Definition primitive_mutators : list method :=
-  [M_add_parameter; M_remove_parameter; M_update_parameter; M_make_parameter_dynamic;
-   M_add_variable; M_remove_variable; M_update_variable;
-   M_add_derived; M_update_derived; M_remove_derived;
-   M_add_reaction; M_update_reaction; M_remove_reaction;
-   M_add_readout; M_remove_readout;
-   M_add_surrogate; M_update_surrogate; M_remove_surrogate;
-   M_add_data; M_update_data; M_remove_data].
+
 Theorem C03_facts_pinned :
-  forallb invalidates primitive_mutators = true /\ unknown_mutators = [].
+  forallb invalidates
+          [M_add_parameter; M_remove_parameter; M_update_parameter; M_make_parameter_dynamic;
+           M_add_variable; M_remove_variable; M_update_variable;
+           M_add_derived; M_update_derived; M_remove_derived;
+           M_add_reaction; M_update_reaction; M_remove_reaction;
+           M_add_readout; M_remove_readout;
+           M_add_surrogate; M_update_surrogate; M_remove_surrogate;
+           M_add_data; M_update_data; M_remove_data] = true
+  /\ unknown_mutators = [].
 Proof. split; vm_compute; reflexivity. Qed.
 Print Assumptions C03_facts_pinned.
+
+(** after ANY finite sequence of public mutators and queries the memoised cache is either absent
+    or exactly what _create_cache computes from the current content *)
+Theorem C03_cache_always_coherent :
+  forall (h : list op) (c : cache),
+    s_cache (run_history h) = Some c ->
+    create_cache FnLib.fsem FnLib.fsemN gen_sort_facts (s_m (run_history h)) = Val c.
+Proof. exact (history_coherent (all_invalidate_from_pin C03_facts_pinned)). Qed.
+Print Assumptions C03_cache_always_coherent.
+
+(** ... hence every query answers exactly as a freshly built model with the same content *)
+Theorem C03_history_equals_fresh :
+  forall (h : list op) (q : query),
+    snd (ask (run_history h) q) = snd (ask (fresh (run_history h)) q).
+Proof. exact (history_equals_fresh (all_invalidate_from_pin C03_facts_pinned)). Qed.
+Print Assumptions C03_history_equals_fresh.
+
+(** non-vacuity: query, remove the surrogate, query again -- the second answer is the fresh one *)
+Example C03_nonvacuous :
+  let h := [Mut (AddVar 12%N (Plain 1%Z)); Mut (AddPar 11%N (Plain 2%Z));
+            Mut (AddSur 15%N (mkSur 1%N [12%N; 11%N] [21%N; 22%N] [(21%N, [(12%N, CStat 1%Z)])]) None None None);
+            Ask (QArgs None 0%Z); Mut (RemoveSur 15%N)] in
+  s_cache (run_history h) = None /\
+  snd (ask (run_history h) (QArgs None 0%Z)) = Answer (APairs [(0%N, 0%Z); (12%N, 1%Z); (11%N, 2%Z)]).
+Proof. cbv zeta. split; vm_compute; reflexivity. Qed.
+Print Assumptions C03_nonvacuous.
